@@ -236,7 +236,8 @@ Section Model.
            end
     end.
   Definition sympy_mul (args : list mx) : mx :=
-    if existsb is_msx args then mk_matmul args else plain_mul args.
+    if existsb is_zero args then xzero          (* sympy: Mul(.., 0, ..) = 0, before any post-processor *)
+    else if existsb is_msx args then mk_matmul args else plain_mul args.
 
   (* ---------------------------------------------------------------- Inverse.__new__(x) *)
   Definition mk_inverse (x : mx) : mx :=
@@ -371,10 +372,14 @@ Definition zpow_t (b : texpr) (e : Z) : texpr :=
 Fixpoint t_pow (d : nat) (A : tmat) (n : nat) : tmat :=
   match n with 0 => t_ident d | 1 => A | S k => t_mul d (t_pow d A k) A end.
 
+(* the number 0 is also the zero matrix (MatSymbolicAdd drops it) *)
+Definition is_tzero (t : texpr) : bool := match t with TZ Z0 => true | _ => false end.
 Definition tv_add (d : nat) (a b : option tensor) : option tensor :=
   match a, b with
   | Some (Sc x), Some (Sc y) => Some (Sc (TAdd x y))
   | Some (Mat A), Some (Mat B) => Some (Mat (t_add d A B))
+  | Some (Sc x), Some (Mat B) => if is_tzero x then Some (Mat B) else None
+  | Some (Mat A), Some (Sc y) => if is_tzero y then Some (Mat A) else None
   | _, _ => None
   end.
 Definition tv_mul (d : nat) (a b : option tensor) : option tensor :=
@@ -433,9 +438,20 @@ Section MDen.
 End MDen.
 
 (* comparison codes of the case files: 0 proved equal, 1 not proved, 2 left side undefined, 3 right side undefined *)
+Definition entries (t : tensor) : list texpr :=
+  match t with Sc x => [x] | Vec l => l | Mat A => concat A end.
+Definition all_zero_t (t : tensor) : bool := forallb (fun x => tequiv x (TZ 0)) (entries t).
+(* equality of tensors modulo the field axioms; the scalar 0 is also the zero matrix *)
+Definition teq0 (a b : tensor) : bool :=
+  if tens_equiv a b then true
+  else match a, b with
+       | Sc x, _ => tequiv x (TZ 0) && all_zero_t b
+       | _, Sc y => tequiv y (TZ 0) && all_zero_t a
+       | _, _ => false
+       end.
 Definition mcmp (a b : option tensor) : nat :=
   match a, b with
-  | Some x, Some y => if tens_equiv x y then 0 else 1
+  | Some x, Some y => if teq0 x y then 0 else 1
   | None, _ => 2
   | _, None => 3
   end.
